@@ -13,7 +13,19 @@
 #include <exception>
 #include <unistd.h>
 
+#ifdef VERIF_COVERAGE_BUILD
+extern "C" void __gcov_dump(void);   // bin/implcov: children that leave through _exit still contribute their counts
+#endif
+
 namespace vt {
+
+// normal end of a forked child: like _exit, but keeps the gcov counters in coverage builds
+static inline void child_exit(int rc) {
+#ifdef VERIF_COVERAGE_BUILD
+  __gcov_dump();
+#endif
+  _exit(rc);
+}
 
 static FILE* g_out = nullptr;
 static long g_events = 0;
